@@ -108,8 +108,14 @@ func ruleC14B1B2(r *Run) {
 	if snd == nil || rcv == nil {
 		return
 	}
+	// Receive may only take the lock and hand the datagram to the method that does the work (receiveLocked), which in
+	// turn may have helpers that are given the datagram: they are read together
+	rcv = receiveMain(p, rcv)
 	w := headerAccesses(p, snd, true)
-	rd := headerAccesses(p, rcv, false)
+	var rd []hdrField
+	for g := range datagramFuncs(p, rcv) {
+		rd = append(rd, headerAccesses(p, g, false)...)
+	}
 	key := func(h hdrField) string { return fmt.Sprintf("[%d:%d]u%d", h.lo, h.hi, h.width) }
 	ws, rs := map[string]hdrField{}, map[string]hdrField{}
 	for _, h := range w {
@@ -133,27 +139,29 @@ func ruleC14B1B2(r *Run) {
 	}
 	// roles on the receiver
 	rroles := map[int64]string{}
-	allInstrs(rcv, func(ins ssa.Instruction) {
-		c, ok := ins.(*ssa.Call)
-		if !ok {
-			return
-		}
-		o := calleeObj(&c.Call)
-		if o == nil || o.Pkg() == nil || o.Pkg().Path() != "encoding/binary" || !strings.HasPrefix(o.Name(), "Uint") {
-			return
-		}
-		sl, ok := callArgs(&c.Call)[1].(*ssa.Slice)
-		if !ok {
-			return
-		}
-		lo := int64(0)
-		if sl.Low != nil {
-			lo, _ = constInt(sl.Low)
-		}
-		// how is the value used?
-		use := classifyHeaderUse(c)
-		rroles[lo] = use
-	})
+	for g := range datagramFuncs(p, rcv) {
+		allInstrs(g, func(ins ssa.Instruction) {
+			c, ok := ins.(*ssa.Call)
+			if !ok {
+				return
+			}
+			o := calleeObj(&c.Call)
+			if o == nil || o.Pkg() == nil || o.Pkg().Path() != "encoding/binary" || !strings.HasPrefix(o.Name(), "Uint") {
+				return
+			}
+			sl, ok := callArgs(&c.Call)[1].(*ssa.Slice)
+			if !ok {
+				return
+			}
+			lo := int64(0)
+			if sl.Low != nil {
+				lo, _ = constInt(sl.Low)
+			}
+			// how is the value used?
+			use := classifyHeaderUse(c)
+			rroles[lo] = use
+		})
+	}
 	wantW := map[int64]string{0: "seqNum", 4: "maxIdx", 6: "segIdx"}
 	wantR := map[int64]string{0: "key", 4: "count", 6: "index"}
 	for off, wr := range wantW {
@@ -262,6 +270,27 @@ func ruleC14B1B2(r *Run) {
 				okAll = false
 			}
 		})
+		// slices made by a helper that is handed the datagram: guarded when the call of the helper is
+		for g, dp := range datagramFuncs(p, rcv) {
+			if g == rcv {
+				continue
+			}
+			cnt := 0
+			allInstrs(g, func(ins ssa.Instruction) {
+				if sl, ok := ins.(*ssa.Slice); ok && canonVal(sl.X) == ssa.Value(dp) {
+					cnt++
+				}
+			})
+			if cnt == 0 {
+				continue
+			}
+			n += cnt
+			for _, site := range p.staticCallSites(g) {
+				if site.Parent() == rcv && !edgeDominates(guardIf.Block(), acceptSucc, site.Block()) {
+					okAll = false
+				}
+			}
+		}
 		r.Check(name+" slices guarded", okAll && n >= 4, posOf(p, guardIf), name, fmt.Sprintf("%d slices of the datagram, all dominated by the accepting edge of the length test: %v", n, okAll))
 	}
 	add := r.method("/internal/segment", "ReadBuffer", "add")
@@ -415,6 +444,7 @@ func ruleC14B3(r *Run) {
 	// B7: slot count without wrap
 	rcv := p.Method("/internal/segment", "ReadBuffers", "Receive")
 	if rcv != nil {
+		rcv = receiveMain(p, rcv)
 		ok := true
 		detail := ""
 		found := false
@@ -542,6 +572,7 @@ func ruleC14B5(r *Run) {
 	}
 	rcv := p.Method("/internal/segment", "ReadBuffers", "Receive")
 	if rcv != nil {
+		rcv = receiveMain(p, rcv)
 		ok := false
 		for _, st := range storesIn(rcv, "/internal/segment.ReadBuffer.ExpiredAt") {
 			l := p.Leaves(st.Val, provOpts{})
@@ -816,4 +847,54 @@ func ruleC14B9(r *Run) {
 		}
 	}
 	r.Check(name+" runs once per announced segment", okBound, posOf(p, inLoopCall), name, "the loop's exit test must compare the segment index with the last segment index that every header announces; a test on what is left of the payload ends one iteration early for exact multiples of the segment size")
+}
+
+// receiveMain: the function that does the work of fn — fn itself, or the unexported method whose results fn returns as
+// they are after taking a lock (Receive -> receiveLocked), as long as fn itself does not parse anything.
+func receiveMain(p *Prog, fn *ssa.Function) *ssa.Function {
+	for i := 0; i < 2; i++ {
+		parses := false
+		allInstrs(fn, func(ins ssa.Instruction) {
+			if cc := instrCall(ins); cc != nil {
+				if o := calleeObj(cc); o != nil && o.Pkg() != nil && o.Pkg().Path() == "encoding/binary" {
+					parses = true
+				}
+			}
+		})
+		if parses {
+			return fn
+		}
+		g := tailCallee(p, fn)
+		if g == nil || len(g.Params) != len(fn.Params) {
+			return fn
+		}
+		fn = g
+	}
+	return fn
+}
+
+// datagramFuncs: fn and the unexported functions of its package that fn hands its datagram parameter (the second
+// parameter) to, each with the parameter that holds the datagram there.
+func datagramFuncs(p *Prog, fn *ssa.Function) map[*ssa.Function]*ssa.Parameter {
+	out := map[*ssa.Function]*ssa.Parameter{}
+	if len(fn.Params) < 2 {
+		return out
+	}
+	out[fn] = fn.Params[1]
+	allInstrs(fn, func(ins ssa.Instruction) {
+		c, ok := ins.(*ssa.Call)
+		if !ok {
+			return
+		}
+		g := c.Call.StaticCallee()
+		if g == nil || !p.Analysed(g) || g.Pkg != fn.Pkg || (g.Object() != nil && g.Object().Exported()) {
+			return
+		}
+		for i, a := range c.Call.Args {
+			if canonVal(a) == ssa.Value(fn.Params[1]) && i < len(g.Params) {
+				out[g] = g.Params[i]
+			}
+		}
+	})
+	return out
 }
